@@ -117,8 +117,8 @@ def run_real(files: T.Mapping[str, str], monitors: bool = True, mon_opts: T.Opti
 class Deviant(R.Evaluator):
     """The reference with exactly one documented-behaviour deviation switched on."""
 
-    def __init__(self, files: T.Mapping[str, str], deviation: str) -> None:
-        super().__init__(files)
+    def __init__(self, files: T.Mapping[str, str], deviation: str, env: T.Optional[T.Mapping[str, T.Any]] = None) -> None:
+        super().__init__(files, env=env)
         self.deviation = deviation
         self.sites: T.List[str] = []
 
@@ -210,6 +210,19 @@ class Deviant(R.Evaluator):
 
 
 DEVIATIONS = ['bool-int-conflation', 'dict-in-nonstr-key', 'bool-to-string-empty']
+
+
+def deviation_free(files: T.Mapping[str, str], env: T.Optional[T.Mapping[str, T.Any]] = None) -> bool:
+    """True when no known deviation can influence this program: such programs may be batched / used as valid
+    workload.  A program that touches a known-deviation cell stops at its first wrong assert and would hide
+    everything after it, so those cells run alone (matrix) or are regenerated (random valid programs)."""
+    for dev in DEVIATIONS:
+        ev = Deviant(files, dev, env=dict(env) if env else None)
+        ev.max_steps = 50000
+        ev.run()
+        if ev.sites:
+            return False
+    return True
 
 
 # ------------------------------------------------------------------------------------------------------
@@ -468,7 +481,9 @@ def run_case(item: T.Tuple[str, T.Any]) -> dict:
         if kind == 'valid':
             seed, depth, chunks = spec
             rng = random.Random(seed)
-            prog = G.ProgramGen(rng, depth).program(chunks, multi_file=True, label=f'valid:{seed}')
+            pg = G.ProgramGen(rng, depth)
+            pg.extra_check = deviation_free
+            prog = pg.program(chunks, multi_file=True, label=f'valid:{seed}')
         elif kind == 'faulty':
             seed, op, variant = spec
             prog = G.faulty_program(random.Random(seed), op, variant)
@@ -554,6 +569,10 @@ PROBES: T.List[T.Tuple[str, str]] = [
     ('missing-operand:accepted-when-unevaluated', "x = true ? 1 :\nmessage(x)"),
     ('missing-operand:accepted-when-unevaluated', "if false\n  x = 1 +\nendif"),
     ('block-keyword-on-statement-line:accepted', "if true\n  x = 1 endif\nmessage(x)"),
+    # .format() / f-strings substitute in ONE pass: text coming from an argument or a variable is never re-scanned
+    ('', "message('@0@ then @1@'.format('@1@', 'x'), '@1@ @0@ @1@'.format('@0@', '@1@'), '@0@@0@'.format('@0@'))"),
+    ('', "message('@1@'.format('a', '@0@'), '@01@ @00@'.format('a', 'b'), '@0@'.format(['@0@', '@1@'], 'z'))"),
+    ('', "fa = '@fb@'\nfb = 'x @fa@ @0@'\nmessage(f'@fa@ and @fb@', f'@fb@@fa@'.format('y'))"),
     ('jump-outside-loop:raw-exception', "break"),
     ('jump-outside-loop:raw-exception', "if true\n  continue\nendif"),
     # behaviour the documents fix and the unchanged tree gets right (sanity of the pipeline)
@@ -599,7 +618,8 @@ def matrix_items(rng: random.Random, per_cell: int) -> T.List[T.Tuple[str, T.Any
             stmts = f't = {expr}\n'
             name = 't'
         o = R.Evaluator({'meson.build': "project('x')\n" + stmts}).run()
-        if o.ok and R.tname(o.variables.get(name)) in G.TYPES:
+        single = {'meson.build': "project('x')\n" + stmts}
+        if o.ok and R.tname(o.variables.get(name)) in G.TYPES and deviation_free(single):
             valid.append((label, stmts))
         else:
             text = head + stmts + f"message('t', t)\nmessage('AFTER')\nmessage('END')\n"
